@@ -708,6 +708,7 @@ def string_fragment(report, uri_consts, shape_consts):
             ("shexer/utils/triple_yielders.py", None, 'tune_prop', 'tune_prop', {'a_token': 'str', 'raise_error_if_no_corners': 'bool'}, 'obj'),
             ("shexer/utils/triple_yielders.py", None, 'tune_token', 'tune_token',
              {'a_token': 'str', 'allow_untyped_numbers': 'bool', 'raise_error_if_no_corners': 'bool', 'base_namespace': 'optstr'}, 'obj'),
+            ("shexer/io/graph/yielder/tsv_nt_triples_yielder.py", 'TsvNtTriplesYielder', '_look_for_tokens', 'tsv_look_for_tokens', {'str_line': 'str'}, 'strlist'),
             # the streaming Turtle reader: comment removal and the scans of its tokenizer
             ("shexer/io/graph/yielder/big_ttl_triples_yielder.py", 'BigTtlTriplesYielder', '_remove_comments_if_needed', 'ttl_remove_comments_if_needed',
              {'str_line': 'str'}, 'str'),
@@ -720,7 +721,11 @@ def string_fragment(report, uri_consts, shape_consts):
             ("shexer/io/graph/yielder/big_ttl_triples_yielder.py", 'BigTtlTriplesYielder', '_find_next_quoted_literal_ending', 'ttl_find_next_quoted_literal_ending',
              {'target_str': 'str', 'start_index': 'int'}, 'int'),
             ("shexer/io/graph/yielder/big_ttl_triples_yielder.py", 'BigTtlTriplesYielder', '_expand_prefixed_datatype_if_needed', 'ttl_expand_prefixed_datatype_if_needed',
-             {'self._prefixes': 'strdict', 'raw_literal': 'str'}, 'str')]
+             {'self._prefixes': 'strdict', 'raw_literal': 'str'}, 'str'),
+            ("shexer/io/graph/yielder/big_ttl_triples_yielder.py", 'BigTtlTriplesYielder', '_parse_cornered_element', 'ttl_parse_cornered_element',
+             {'self._base': 'optstr', 'cornered_element': 'str'}, 'str'),
+            ("shexer/io/graph/yielder/big_ttl_triples_yielder.py", 'BigTtlTriplesYielder', '_next_line_token', 'ttl_next_line_token',
+             {'self._base': 'optstr', 'a_line': 'str', 'start_index': 'int'}, 'optstrint')]
     funcs = {}
     for rel, cls, pyname, lname, types, ret in jobs:
         try:
@@ -740,6 +745,10 @@ def string_fragment(report, uri_consts, shape_consts):
                     for al in node.names:
                         if al.asname is None and al.name in funcs.get('*', {}):
                             local.setdefault(al.name, funcs['*'][al.name])
+            for node in tree.body:      # module constants `L = ["a", "b"]`: lists of one-character strings
+                if isinstance(node, ast.Assign) and len(node.targets) == 1 and isinstance(node.targets[0], ast.Name) and isinstance(node.value, ast.List) \
+                        and node.value.elts and all(isinstance(e_, ast.Constant) and isinstance(e_.value, str) and len(e_.value) == 1 for e_ in node.value.elts):
+                    local[node.targets[0].id] = ('charlist', "".join(e_.value for e_ in node.value.elts))
             local['__class__'] = cls
             local['__imports__'] = {al.asname or al.name: node.module or '' for node in tree.body if isinstance(node, ast.ImportFrom) for al in node.names}
             for node in tree.body:      # `_is_integer(x)`: exactly `x % 1.0 == 0`
@@ -749,9 +758,10 @@ def string_fragment(report, uri_consts, shape_consts):
             local.update(more_consts)
             ok_tr = XS.translate(out, report, assumptions, 'S.' + lname, fn, types, ret, local)
             plain = lambda t: t in ('str', 'bool', 'int', 'strdict', 'optstr')
-            if ok_tr and cls is not None and ret in ('str', 'bool', 'int', 'optstr') and "(resolve :" not in out[-1]:
+            if ok_tr and cls is not None and ret in ('str', 'bool', 'int', 'optstr'):
                 funcs.setdefault((rel, cls), {})['self.' + pyname] = ('func', lname, [(a.arg, types[a.arg]) for a in fn.args.args if a.arg != 'self'], ret, {},
-                                                                     [k for k in types if k.startswith('self.')], "(fuel : Nat)" in out[-1])
+                                                                     [k for k in types if k.startswith('self.')], "(fuel : Nat)" in out[-1],
+                                                                     "(resolve :" in out[-1], "(floatOf :" in out[-1])
             if ok_tr and cls is None and ret in ('str', 'bool', 'int', 'optstr', 'strpair', 'obj') \
                     and all(plain(t) for t in types.values()):
                 nd = len(fn.args.defaults)
@@ -795,7 +805,9 @@ def string_fragment(report, uri_consts, shape_consts):
                                                   else "(%s).map fun i => some (toString i).toList" % call if ret == 'int'
                                                   else "(%s).map fun l => some (l.flatMap fun t => t ++ [Char.ofNat 1])" % call if ret == 'strlist'
                                                   else "(%s).map fun p => some (p.1 ++ [Char.ofNat 1] ++ p.2)" % call if ret == 'strpair'
-                                                  else "(%s).map fun o => some (showObj o)" % call if ret == 'obj' else "(%s).map some" % call))
+                                                  else "(%s).map fun o => some (showObj o)" % call if ret == 'obj'
+                                                  else "(%s).map fun r => r.map fun p => p.1 ++ [Char.ofNat 1] ++ (toString p.2).toList" % call if ret == 'optstrint'
+                                                  else "(%s).map some" % call))
     out.append("def pairs : List (List Char) → List (List Char × List Char)\n  | k :: v :: rest => (k, v) :: pairs rest\n  | _ => []\n")
     out.append("def showObj : PyOps.Obj → List Char\n  | .iri c => 'I' :: c\n  | .bnode c => 'B' :: c\n  | .prop c => 'P' :: c\n  | .lit c t => 'L' :: c ++ [Char.ofNat 1] ++ t\n")
     out.append("/-- dispatch by name for `strdriver` (the translator's correspondence check) -/")
